@@ -203,6 +203,12 @@ def ensure_1d_with_singleton(to_check, names, func_name):
             msg = "Checking {0} inputs - trailing dims of input '{1}' {2} must be singletons (length=1)"
             logger.error(msg.format(func_name, names[idx], xx.shape))
             raise ValueError(msg)
+        elif (xx.ndim == 2) and (xx.shape[1] != 1):
+            # 2d input with more than one column
+            msg = "Checking {0} inputs - second dim of input '{1}' {2} must be a singleton (length=1)"
+            msg = msg.format(func_name, names[idx], xx.shape)
+            logger.error(msg)
+            raise ValueError(msg)
         elif xx.ndim == 1:
             # Vector input - add a dummy dimension
             msg = "Checking {0} inputs - Adding dummy dimension to input '{1}'"
